@@ -48,6 +48,8 @@ MOVES_FREE = {
 MOVES_GND = {
     'z-far': ((0.0, 0.0, 118.9), (1234.5, -987.6, 0.0), 0.01),
     'z-right': ((0.0, 0.0, 270.0), (-3.3, 7.0, 0.0), 100.0),
+    # a quarter turn and nothing else: directions keep exactly representable relations (dx = dy becomes dx = -dy)
+    'z-quarter': ((0.0, 0.0, 90.0), (0.0, 0.0, 0.0), 1.0),
 }
 
 
@@ -427,13 +429,13 @@ def main(args):
     ck.shadow_stats = symx.load().stats
     if ck.tier == 'quick':
         parts = [('fill_invariance', ('G2', 'far-generic')), ('fill_invariance', ('G5', 'right-angles')), ('fill_invariance', ('G4', 'x-then-y')),
-                 ('fill_invariance', ('G9', 'z-far')), ('fill_invariance', ('G8', 'z-right')), ('fill_invariance', ('G11', 'far-generic')), ('fill_invariance', ('G21', 'right-angles')), ('fill_invariance', ('G2', 'two-scales')), ('fill_invariance', ('G2', 'z-only', 2)),
+                 ('fill_invariance', ('G9', 'z-far')), ('fill_invariance', ('G8', 'z-right')), ('fill_invariance', ('G28', 'z-quarter')), ('fill_invariance', ('G11', 'far-generic')), ('fill_invariance', ('G21', 'right-angles')), ('fill_invariance', ('G2', 'two-scales')), ('fill_invariance', ('G2', 'z-only', 2)),
                  ('far_field', ('G2', 'z-only')), ('far_field', ('G9', 'z-far')), ('mixed_tag', ('G2',)), ('mixed_tag', ('G5',))]
         parts += [('topology', (f, k)) for f in ('near-miss', 'fuzzy-join', 'just-apart', 'grounded') for k in ('scale',)]
         parts += [('topology', ('fuzzy-join', 'translate')), ('topology', ('grounded', 'translate')), ('topology', ('just-apart', 'rotate'))]
     else:
         parts = [('fill_invariance', (g, mv)) for g in ('G1', 'G2', 'G3', 'G4', 'G5', 'G6', 'G11') for mv in MOVES_FREE]
-        parts += [('fill_invariance', (g, mv)) for g in ('G7', 'G8', 'G9', 'G10', 'G14', 'G16') for mv in MOVES_GND]
+        parts += [('fill_invariance', (g, mv)) for g in ('G7', 'G8', 'G9', 'G10', 'G14', 'G16', 'G28') for mv in MOVES_GND]
         parts += [('fill_invariance', ('G2', mv, 2)) for mv in MOVES_FREE] + [('fill_invariance', ('G5', 'z-only', 3))]
         parts += [('far_field', (g, 'z-only')) for g in ('G1', 'G2', 'G5')] + [('far_field', (g, mv)) for g in ('G8', 'G9') for mv in MOVES_GND]
         parts += [('topology', (f, k)) for f in FRAMES for k in ('scale', 'translate', 'rotate')]
